@@ -92,6 +92,8 @@ def cases(draw):
                 a["group"] = k + 100 * seen[k]
         c["acctinfo"] = accts
         c["skipprofile"] = draw(st.booleans())
+        # what the profile says about closing statements is the server's business: the accounts asked for stay the same
+        c["closingavail"] = draw(st.booleans())
         if draw(st.booleans()):
             c["cli"] = {}
             c["user"] = {}
@@ -243,7 +245,7 @@ def check_case(c):
         def responder(rec):
             data = rec["data"] or b""
             if b"<PROFRQ>" in data:
-                return 200, [], F.profile_response({"BANKMSGSET": rec["url"], "CREDITCARDMSGSET": rec["url"], "INVSTMTMSGSET": rec["url"]}, F.dt_tag(2020))
+                return 200, [], F.profile_response({"BANKMSGSET": rec["url"], "CREDITCARDMSGSET": rec["url"], "INVSTMTMSGSET": rec["url"]}, F.dt_tag(2020), closing=c.get("closingavail", True))
             if b"<ACCTINFORQ>" in data:
                 served["acctinfo"] += 1
                 return 200, [], F.acctinfo_response(accts)
